@@ -232,4 +232,5 @@ Ltac tie_split :=
       | _ => destruct c eqn:?
       end
   end.
+Ltac tie_close := cbn; repeat split; first [reflexivity | (exfalso; lia) | lia | (f_equal; lia)].
 Ltac tie_auto := cbn; tie_split; cbn; try reflexivity; try lia; try (repeat split; (reflexivity || lia)).
